@@ -16,6 +16,7 @@ import NeoModel.Proofs.QueueReach
 import NeoModel.Proofs.QueueCounters
 import NeoModel.Proofs.QueueFair
 import NeoModel.Proofs.QueueNoExt
+import NeoModel.Proofs.QueueDrift
 import NeoModel.Model.StateSync
 import NeoModel.Proofs.StateSyncRestore
 import NeoModel.Proofs.StateSyncRebuild
@@ -328,6 +329,44 @@ example :
   · exact ⟨el 1 2, by decide, rfl, rfl⟩
   · exact ⟨el 2 0, by decide, rfl, rfl⟩
   · exact ⟨el 3 1, by decide, rfl, rfl⟩
+
+/-- C20 (queue, the schedule class of `len-drift`). In every interleaving WITHOUT an external chain addition,
+without Discard, and in which no producer gets an index the chain has already passed beyond the check
+`element.GetIndex() <= h` (i.e. no duplicate delivery whose height read raced with the application of the same
+block) — any number of producers, out of order, duplicates of blocks not yet applied, blocks far ahead, invalid
+elements, stale heights otherwise — `len` is exact: whenever `Run` is not between `AddItem` and its second lock
+section, `LastQueued` reports capacity minus the number of occupied slots. So the drift of
+`queue_len_drift_witness` needs exactly that stale re-insert (or an external writer); the harness keys a drift
+outside this class as the new failure `len-drift-fresh`. -/
+theorem queue_len_exact_without_stale_reinsert (cap h0 : Nat) (hc : 2 ≤ cap) (as : List Act)
+    (hf : FreshPuts (init cap h0) as) :
+    let s := exec (init cap h0) as
+    (∀ b pos, s.pc ≠ .added b pos) → (lastQueued s).2 = (cap : Int) - (occupied s : Nat) := by
+  intro s hna
+  have hx : Exact s := exact_exec (init cap h0) as hc (inv_init cap h0 (by omega)) (exact_init cap h0) hf
+  have hl : s.len = (occN s.ring s.cap : Int) + extra s := hx.len
+  have hcap : s.cap = cap := exec_cap _ _
+  have he : extra s = 0 := by
+    unfold extra
+    split
+    · rename_i b pos h; exact absurd h (hna b pos)
+    · rfl
+  have hl' : s.len = (occN s.ring cap : Int) := by rw [hl, he, hcap]; simp
+  simp only [lastQueued, occupied_eq, hcap, hl']
+
+-- non-vacuity: the schedule of `queue_len_drift_witness` without its stale duplicate of block 1 is in the class
+-- and ends with an exact `len`; the witness schedule itself is outside the class
+example :
+    let e (i t : Nat) : Elem := { idx := i, tag := t, ok := true }
+    let good : List Act := [.run, .put (e 1 0) 0, .run, .run, .run, .run, .run, .run, .run,
+      .put (e 5 2) 1, .put (e 2 3) 1, .put (e 3 4) 1, .put (e 4 5) 1, .put (e 4 6) 0] ++ List.replicate 24 .run
+    let bad : List Act := [.run, .put (e 1 0) 0, .run, .run, .run, .run, .run, .run, .run,
+      .put (e 1 1) 0, .run, .run, .run,
+      .put (e 5 2) 1, .put (e 2 3) 1, .put (e 3 4) 1, .put (e 4 5) 1] ++ List.replicate 24 .run
+    FreshPuts (init 4 0) good ∧ lastQueued (exec (init 4 0) good) = (5, 4) ∧ (exec (init 4 0) good).height = 5 ∧
+    ¬ FreshPuts (init 4 0) bad := by
+  unfold FreshPuts
+  decide
 
 end NeoModel.Queue
 
